@@ -648,4 +648,1180 @@ theorem reachable_invA {c : Cfg} {s : State} (h : Reachable c s) : InvA c s := b
   obtain ⟨run, hr⟩ := h
   exact exec_some_induct c (InvA c) (fun s s' a => step_invA c s s' a) run _ _ (init_invA c) hr
 
+/-! ## no lost request -/
+
+def AllWaiting (c : Cfg) (s : State) : Prop := ∀ x, x < c.n → s.pc x = .waiting
+
+/-- if every worker waits, nothing is requested and no goal is current -/
+def InvB (c : Cfg) (s : State) : Prop := AllWaiting c s → (anyRequested s = false ∧ s.current = none)
+
+theorem invB_nonwaiting {c : Cfg} {s' : State} {w : Nat} (hw : w < c.n) (h : s'.pc w ≠ .waiting) : InvB c s' :=
+  fun ha => absurd (ha w hw) h
+
+theorem invB_same {c : Cfg} {s s' : State} (h : InvB c s) (hpc : s'.pc = s.pc) (hr : anyRequested s' = anyRequested s)
+    (hc : s'.current = s.current) : InvB c s' := by
+  intro ha; rw [hr, hc]; apply h; intro x hx; rw [← hpc]; exact ha x hx
+
+theorem respond_parkSelf {c : Cfg} {s s' : State} {tag : Nat} (h : respond c s tag = some (s', .parkSelf)) :
+    anyRequested s' = false ∧ s'.current = none := by
+  unfold respond at h
+  split at h
+  · cases h
+  · rename_i hc
+    split at h
+    · injection h with h; injection h with _ h2; cases h2
+    · split at h
+      · injection h with h; injection h with _ h2; cases h2
+      · split at h
+        · injection h with h; injection h with _ h2; cases h2
+        · rename_i h1 h2 h3
+          injection h with h; injection h with h _; subst h
+          refine ⟨?_, ?_⟩
+          · simp only [anyRequested]; simp [h1, h2, h3]
+          · cases hcur : s.current with
+            | none => rfl
+            | some g => rw [hcur] at hc; simp at hc
+
+theorem onLastParked_parkSelf {c : Cfg} {s s' : State} {tag : Nat} (h : onLastParked c s tag = some (s', .parkSelf)) :
+    anyRequested s' = false ∧ s'.current = none := by
+  unfold onLastParked at h
+  split at h
+  · exact respond_parkSelf h
+  · split at h
+    · cases h
+    · split at h
+      · cases h
+      · split at h
+        · injection h with h; injection h with _ h2; cases h2
+        · split at h
+          · injection h with h; injection h with _ h2; cases h2
+          · split at h
+            · injection h with h; injection h with _ h2; cases h2
+            · split at h
+              · cases h
+              · split at h
+                · injection h with h; injection h with _ h2; cases h2
+                · exact respond_parkSelf h
+  · cases h
+
+theorem countW_all_but_eq (n : Nat) (f : Nat → Bool) (w : Nat) (hw : w < n) (hfw : f w = false)
+    (h : ∀ x, x < n → x ≠ w → f x = true) : countW n f + 1 = n := by
+  have h2 : countW n (fun x => if x = w then true else f x) = countW n f + 1 := by
+    have := countW_update n f w true hw
+    rw [hfw] at this
+    simpa using this
+  have h3 : countW n (fun x => if x = w then true else f x) = countW n (fun _ => true) := by
+    apply countW_congr; intro x hx
+    by_cases hxw : x = w
+    · simp [hxw]
+    · simp [hxw, h x hx hxw]
+  have h4 : ∀ n, countW n (fun _ => true) = n := by
+    intro n; induction n with
+    | zero => rfl
+    | succ n ih => rw [countW_succ, ih]; simp
+  have := h4 n
+  omega
+
+theorem notifyOne_cases {c : Cfg} {s s' : State} {x : Option Nat} (h : notifyOne c s x = some s') :
+    (∃ x0, x = some x0 ∧ x0 < c.n ∧ s.pc x0 = .waiting ∧ s' = setPc s x0 .woken) ∨ (x = none ∧ noWaiter c s = true ∧ s' = s) := by
+  unfold notifyOne at h
+  split at h
+  · split at h
+    · rename_i x0 hh; injection h with h; exact Or.inl ⟨x0, rfl, hh.1, hh.2, h.symm⟩
+    · cases h
+  · split at h
+    · rename_i hh; injection h with h; exact Or.inr ⟨rfl, hh, h.symm⟩
+    · cases h
+
+theorem noWaiter_zero {c : Cfg} {s : State} (hn : 0 < c.n) (h : noWaiter c s = true) : s.pc 0 ≠ .waiting := by
+  unfold noWaiter at h
+  rw [List.all_eq_true] at h
+  have := h 0 (List.mem_range.mpr hn)
+  simpa using this
+
+theorem invB_notifyOne {c : Cfg} {s s' : State} {x : Option Nat} (hn : 0 < c.n) (hb : InvB c s)
+    (h : notifyOne c s x = some s') : InvB c s' ∧ (AllWaiting c s' → False) := by
+  rcases notifyOne_cases h with ⟨x0, _, hx0, _, rfl⟩ | ⟨_, hnw, rfl⟩
+  · have : (setPc s x0 .woken).pc x0 ≠ .waiting := by simp [setPc]
+    exact ⟨invB_nonwaiting hx0 this, fun ha => this (ha x0 hx0)⟩
+  · have := noWaiter_zero hn hnw
+    exact ⟨hb, fun ha => this (ha 0 hn)⟩
+
+
+theorem exec_ne_waiting {p : PC} (h : p.isExec = true) : p ≠ .waiting := by
+  intro e; rw [e] at h; cases h
+
+theorem notifyAll_exec (s : State) (w : Nat) (h : (s.pc w).isExec = true) : (notifyAll s).pc w ≠ .waiting := by
+  simp only [notifyAll]
+  split
+  · simp
+  · exact exec_ne_waiting h
+
+theorem afterUnpark_ne_waiting (s : State) (w : Nat) : (afterUnpark s w).pc w ≠ .waiting := by
+  obtain ⟨p, hp, he⟩ := afterUnpark_pc s w
+  rw [he]; simp only [setPc, if_true]
+  rcases hp with rfl | rfl <;> simp
+
+theorem step_invB (c : Cfg) (hn : 0 < c.n) (s s' : State) (a : Act) (hA : InvA c s) (h : InvB c s)
+    (hs : step c s a = some s') : InvB c s' := by
+  cases a with
+  | observeEmpty w k =>
+    simp only [step] at hs
+    split at hs
+    · split at hs
+      · rename_i hg; injection hs with hs; subst hs
+        exact invB_nonwaiting hg.1 (by simp [setPc])
+      · cases hs
+    · cases hs
+  | pollBucket w b p =>
+    simp only [step] at hs
+    split at hs
+    · split at hs
+      · rename_i hg; injection hs with hs; subst hs
+        exact invB_nonwaiting hg.1 (by simp [setPc])
+      · cases hs
+    · cases hs
+  | batchMove w b p =>
+    simp only [step] at hs
+    split at hs
+    · rename_i p0 hpc
+      split at hs
+      · rename_i hg; injection hs with hs; subst hs
+        exact invB_nonwaiting hg.1 (by show s.pc w ≠ _; rw [hpc]; simp)
+      · cases hs
+    · cases hs
+  | popLocal w p =>
+    simp only [step] at hs
+    split at hs
+    · split at hs
+      · rename_i hg; injection hs with hs; subst hs
+        exact invB_nonwaiting hg.1 (by simp [setPc])
+      · cases hs
+    · cases hs
+  | popDesig w p =>
+    simp only [step] at hs
+    split at hs
+    · split at hs
+      · rename_i hg; injection hs with hs; subst hs
+        exact invB_nonwaiting hg.1 (by simp [setPc])
+      · cases hs
+    · cases hs
+  | steal w v p =>
+    simp only [step] at hs
+    split at hs
+    · split at hs
+      · rename_i hg; injection hs with hs; subst hs
+        exact invB_nonwaiting hg.1 (by simp [setPc])
+      · cases hs
+    · cases hs
+  | pollMiss w =>
+    simp only [step] at hs
+    split at hs
+    · split at hs
+      · rename_i hg; injection hs with hs; subst hs
+        exact invB_nonwaiting hg.1 (by simp [setPc])
+      · cases hs
+    · cases hs
+  | push w b tag =>
+    simp only [step] at hs
+    split at hs
+    · rename_i hg; injection hs with hs; subst hs
+      exact invB_nonwaiting hg.1 (by show s.pc w ≠ _; exact exec_ne_waiting hg.2.1)
+    · cases hs
+  | pushLocal w b tag =>
+    simp only [step] at hs
+    split at hs
+    · rename_i hg; injection hs with hs; subst hs
+      exact invB_nonwaiting hg.1 (by show s.pc w ≠ _; exact exec_ne_waiting hg.2.1)
+    · cases hs
+  | pushDesig w x tag =>
+    simp only [step] at hs
+    split at hs
+    · rename_i hg; injection hs with hs; subst hs
+      exact invB_nonwaiting hg.1 (by show s.pc w ≠ _; exact exec_ne_waiting hg.2.1)
+    · cases hs
+  | setSentinel w b tag =>
+    simp only [step] at hs
+    split at hs
+    · rename_i hg; injection hs with hs; subst hs
+      exact invB_nonwaiting hg.1 (by show s.pc w ≠ _; exact exec_ne_waiting hg.2.1)
+    · cases hs
+  | bucketNotifyOne w b x =>
+    simp only [step] at hs
+    split at hs
+    · exact (invB_notifyOne hn h hs).1
+    · cases hs
+  | bucketNotifyAll w b =>
+    simp only [step] at hs
+    split at hs
+    · rename_i hg; injection hs with hs; subst hs
+      exact invB_nonwaiting hg.1 (notifyAll_exec s w hg.2.1)
+    · cases hs
+  | setEnabled w b v =>
+    simp only [step] at hs
+    split at hs
+    · rename_i hg; injection hs with hs; subst hs
+      exact invB_nonwaiting hg.1 (by show s.pc w ≠ _; exact exec_ne_waiting hg.2.1)
+    · cases hs
+  | stopAll w =>
+    simp only [step] at hs
+    split at hs
+    · rename_i hg; injection hs with hs; subst hs
+      exact invB_nonwaiting hg.1 (by show s.pc w ≠ _; exact exec_ne_waiting hg.2.1)
+    · cases hs
+  | clearRequest w =>
+    simp only [step] at hs
+    split at hs
+    · rename_i hg; injection hs with hs; subst hs
+      exact invB_nonwaiting hg.1 (by show s.pc w ≠ _; exact exec_ne_waiting hg.2)
+    · cases hs
+  | openFirst w b =>
+    simp only [step] at hs
+    split at hs
+    · rename_i hg; injection hs with hs; subst hs
+      exact invB_nonwaiting hg.1 (by show s.pc w ≠ _; exact exec_ne_waiting hg.2.1)
+    · cases hs
+  | wakeAll w =>
+    simp only [step] at hs
+    split at hs
+    · rename_i hg; injection hs with hs; subst hs
+      exact invB_nonwaiting hg.1 (notifyAll_exec s w hg.2)
+    · cases hs
+  | execEnd w =>
+    simp only [step] at hs
+    split at hs
+    · split at hs
+      · rename_i hg; injection hs with hs; subst hs
+        exact invB_nonwaiting hg (by simp [setPc])
+      · cases hs
+    · cases hs
+  | park w tag =>
+    simp only [step] at hs
+    split at hs
+    · rename_i hg
+      obtain ⟨hw, hpc, hlt⟩ := hg
+      split at hs
+      · split at hs
+        · cases hs
+        · rename_i s1 hl
+          injection hs with hs; subst hs
+          have := onLastParked_parkSelf hl
+          intro _
+          exact this
+        · injection hs with hs; subst hs
+          exact invB_nonwaiting hw (afterUnpark_ne_waiting _ w)
+        · injection hs with hs; subst hs
+          exact invB_nonwaiting hw (afterUnpark_ne_waiting _ w)
+      · rename_i hnl
+        injection hs with hs; subst hs
+        intro ha
+        exfalso
+        apply hnl
+        show s.parked + 1 = c.n
+        rw [hA.parked_eq]
+        apply countW_all_but_eq c.n _ w hw (by rw [hpc]; rfl)
+        intro x hx hxw
+        have := ha x hx
+        simp only [setPc, hxw, if_false] at this
+        rw [this]; rfl
+    · cases hs
+  | spurious w =>
+    simp only [step] at hs
+    split at hs
+    · rename_i hg; injection hs with hs; subst hs
+      exact invB_nonwaiting hg.1 (by simp [setPc])
+    · cases hs
+  | wake w =>
+    simp only [step] at hs
+    split at hs
+    · rename_i hg; injection hs with hs; subst hs
+      exact invB_nonwaiting hg.1 (afterUnpark_ne_waiting _ w)
+    · cases hs
+  | surrender w =>
+    simp only [step] at hs
+    split at hs
+    · split at hs
+      · rename_i hg
+        split at hs <;> (injection hs with hs; subst hs; exact invB_nonwaiting hg.1 (by simp [setPc]))
+      · cases hs
+    · cases hs
+  | requestFlag =>
+    simp only [step] at hs
+    split at hs <;> (injection hs with hs; subst hs)
+    · exact h
+    · exact invB_same h rfl rfl rfl
+  | makeRequest g x =>
+    simp only [step] at hs
+    have hc : InvB c (consumePending s g) := by
+      unfold consumePending; split
+      · exact invB_same h rfl rfl rfl
+      · exact h
+    split at hs
+    · cases hs
+    · split at hs
+      · split at hs
+        · injection hs with hs; subst hs; exact hc
+        · cases hs
+      · rcases notifyOne_cases hs with ⟨x0, _, hx0, _, rfl⟩ | ⟨_, hnw, rfl⟩
+        · exact invB_nonwaiting hx0 (by simp [setPc])
+        · have h0 := noWaiter_zero hn hnw
+          exact invB_nonwaiting hn h0
+  | mutPush b tag =>
+    simp only [step] at hs
+    split at hs
+    · injection hs with hs; subst hs; exact invB_same h rfl rfl rfl
+    · cases hs
+  | mutNotifyOne b x =>
+    simp only [step] at hs
+    split at hs
+    · exact (invB_notifyOne hn h hs).1
+    · cases hs
+  | initSetEnabled b v =>
+    simp only [step] at hs
+    split at hs
+    · injection hs with hs; subst hs; exact invB_same h rfl rfl rfl
+    · cases hs
+  | prepareSurrender =>
+    simp only [step] at hs
+    split at hs
+    · injection hs with hs; subst hs; exact invB_same h rfl rfl rfl
+    · cases hs
+  | respawn =>
+    simp only [step] at hs
+    split at hs
+    · split at hs
+      · injection hs with hs; subst hs
+        exact invB_nonwaiting hn (by simp [hn])
+      · cases hs
+    · cases hs
+
+theorem init_invB (c : Cfg) (hn : 0 < c.n) : InvB c (init c) :=
+  invB_nonwaiting hn (by simp [init])
+
+/-- both invariants together along a run -/
+theorem reachable_invAB {c : Cfg} (hn : 0 < c.n) {s : State} (h : Reachable c s) : InvA c s ∧ InvB c s := by
+  obtain ⟨run, hr⟩ := h
+  exact exec_some_induct c (fun s => InvA c s ∧ InvB c s)
+    (fun s s' a hh hs => ⟨step_invA c s s' a hh.1 hs, step_invB c hn s s' a hh.1 hh.2 hs⟩)
+    run _ _ ⟨init_invA c, init_invB c hn⟩ hr
+
+
+/-! ## functions that only touch the buckets -/
+
+/-- `s'` differs from `s` at most in the buckets and the ghost trace -/
+def SameButBkt (s s' : State) : Prop := s' = { s with bkt := s'.bkt, trace := s'.trace }
+
+theorem SameButBkt.refl (s : State) : SameButBkt s s := rfl
+theorem SameButBkt.trans {a b c : State} (h1 : SameButBkt a b) (h2 : SameButBkt b c) : SameButBkt a c := by
+  unfold SameButBkt at *
+  rw [h2, h1]
+theorem SameButBkt.current {s s' : State} (h : SameButBkt s s') : s'.current = s.current := by rw [h]
+theorem SameButBkt.stopped {s s' : State} (h : SameButBkt s s') : s'.stopped = s.stopped := by rw [h]
+theorem SameButBkt.reqs {s s' : State} (h : SameButBkt s s') :
+    s'.reqGc = s.reqGc ∧ s'.reqShutdown = s.reqShutdown ∧ s'.reqFork = s.reqFork := by rw [h]; exact ⟨rfl, rfl, rfl⟩
+theorem SameButBkt.counters {s s' : State} (h : SameButBkt s s') :
+    s'.resumes = s.resumes ∧ s'.stops = s.stops ∧ s'.gcDone = s.gcDone ∧ s'.gcStarted = s.gcStarted ∧
+    s'.nextId = s.nextId ∧ s'.added = s.added ∧ s'.started = s.started ∧ s'.ended = s.ended ∧ s'.exitsDone = s.exitsDone := by
+  rw [h]; exact ⟨rfl, rfl, rfl, rfl, rfl, rfl, rfl, rfl, rfl⟩
+
+theorem sbb_emit (s : State) (e : SubEv) : SameButBkt s (emit s e) := rfl
+theorem sbb_setBkt (s : State) (b : Nat) (k : Bucket) : SameButBkt s (setBkt s b k) := rfl
+theorem sbb_openBkt (s : State) (b : Nat) : SameButBkt s (openBkt s b) := rfl
+theorem sbb_closeBkt (s : State) (b : Nat) : SameButBkt s (closeBkt s b) := rfl
+theorem sbb_takeSentinel (s : State) (b : Nat) : SameButBkt s (takeSentinel s b) := by
+  unfold takeSentinel; split <;> rfl
+
+theorem sbb_schedLoop (bs : List Nat) : ∀ (s : State) (acc : Bool), SameButBkt s (schedSentinelsLoop s bs acc).1 := by
+  induction bs with
+  | nil => intro s acc; exact SameButBkt.refl s
+  | cons b bs ih =>
+    intro s acc
+    unfold schedSentinelsLoop
+    split
+    · exact (sbb_takeSentinel s b).trans (ih _ _)
+    · exact ih _ _
+
+theorem sbb_schedSentinels (c : Cfg) (s : State) : SameButBkt s (schedSentinels c s).1 :=
+  (sbb_schedLoop _ s false).trans (sbb_emit _ _)
+
+theorem sbb_updateLoop (c : Cfg) (bs : List Nat) : ∀ (s : State) (u : Bool), SameButBkt s (updateLoop c s bs u).1 := by
+  induction bs with
+  | nil => intro s u; exact SameButBkt.refl s
+  | cons b bs ih =>
+    intro s u
+    unfold updateLoop
+    split
+    · exact ih _ _
+    · split
+      · exact ih _ _
+      · split
+        · split
+          · exact sbb_openBkt s b
+          · split
+            · exact (sbb_openBkt s b).trans (sbb_takeSentinel _ b)
+            · exact ((sbb_openBkt s b).trans (sbb_takeSentinel _ b)).trans (ih _ _)
+        · exact ih _ _
+
+theorem sbb_updateBuckets (c : Cfg) (s : State) : SameButBkt s (updateBuckets c s).1 :=
+  (sbb_updateLoop c _ s false).trans (sbb_emit _ _)
+
+theorem sbb_closeLoop (c : Cfg) (bs : List Nat) : ∀ (s s' : State), closeStwLoop c s bs = some s' → SameButBkt s s' := by
+  induction bs with
+  | nil => intro s s' h; simp [closeStwLoop] at h; subst h; exact SameButBkt.refl s
+  | cons b bs ih =>
+    intro s s' h
+    unfold closeStwLoop at h
+    split at h
+    · split at h
+      · exact (sbb_closeBkt s b).trans (ih _ _ h)
+      · cases h
+    · exact ih _ _ h
+
+theorem sbb_schedConcurrent (c : Cfg) (s : State) : SameButBkt s (schedConcurrent c s) := by
+  unfold schedConcurrent; split <;> rfl
+
+
+/-! ## no stranded packet -/
+
+/-- no bucket would hand out a packet -/
+def NoRun (c : Cfg) (s : State) : Prop := ∀ b, b < c.L → (s.bkt b).runnable = false
+
+theorem takeSentinel_none (s : State) (b : Nat) (h : hasSentinel s b = false) : (takeSentinel s b).bkt = s.bkt := by
+  unfold hasSentinel at h
+  unfold takeSentinel
+  cases hs : (s.bkt b).sentinel with
+  | none => rfl
+  | some p => rw [hs] at h; cases h
+
+theorem schedLoop_true (bs : List Nat) : ∀ (s : State), (schedSentinelsLoop s bs true).2 = true := by
+  induction bs with
+  | nil => intro s; rfl
+  | cons b bs ih =>
+    intro s; unfold schedSentinelsLoop
+    split
+    · simp only [Bool.true_or]; exact ih _
+    · exact ih _
+
+theorem schedLoop_false (bs : List Nat) : ∀ (s : State), (schedSentinelsLoop s bs false).2 = false →
+    (schedSentinelsLoop s bs false).1.bkt = s.bkt := by
+  induction bs with
+  | nil => intro s _; rfl
+  | cons b bs ih =>
+    intro s h
+    unfold schedSentinelsLoop at h ⊢
+    split
+    · rename_i ho
+      rw [if_pos ho] at h
+      cases hh : hasSentinel s b with
+      | true => rw [hh] at h; simp only [Bool.false_or] at h; rw [schedLoop_true] at h; cases h
+      | false =>
+        rw [hh] at h
+        simp only [Bool.or_false] at h ⊢
+        rw [ih _ h, takeSentinel_none s b hh]
+    · rename_i ho
+      rw [if_neg ho] at h
+      exact ih _ h
+
+theorem schedSentinels_false (c : Cfg) (s : State) (h : (schedSentinels c s).2 = false) :
+    (schedSentinels c s).1.bkt = s.bkt := by
+  unfold schedSentinels at h ⊢
+  exact schedLoop_false _ s h
+
+theorem noRun_of_bkt {c : Cfg} {s s' : State} (h : NoRun c s) (e : s'.bkt = s.bkt) : NoRun c s' := by
+  intro b hb; rw [e]; exact h b hb
+
+/-- if `update_buckets` found no new packets, nothing became runnable -/
+theorem updateLoop_noRun (c : Cfg) (bs : List Nat) : ∀ (s : State) (u : Bool), NoRun c s →
+    (updateLoop c s bs u).2.2 = false → NoRun c (updateLoop c s bs u).1 := by
+  induction bs with
+  | nil => intro s u h _; exact h
+  | cons b bs ih =>
+    intro s u h hr
+    unfold updateLoop at hr ⊢
+    split
+    · rename_i h1; rw [if_pos h1] at hr; exact ih _ _ h hr
+    · rename_i h1; rw [if_neg h1] at hr
+      split
+      · rename_i h2; rw [if_pos h2] at hr; exact ih _ _ h hr
+      · rename_i h2; rw [if_neg h2] at hr
+        split
+        · rename_i h3; rw [if_pos h3] at hr
+          split
+          · rename_i h4; rw [if_pos h4] at hr; cases hr
+          · rename_i h4; rw [if_neg h4] at hr
+            split
+            · rename_i h5; rw [if_pos h5] at hr; cases hr
+            · rename_i h5; rw [if_neg h5] at hr
+              have hs5 : hasSentinel (openBkt s b) b = false := by simpa using h5
+              apply ih _ _ _ hr
+              apply noRun_of_bkt (s := openBkt s b) _ (takeSentinel_none _ b hs5)
+              intro b' hb'
+              simp only [openBkt, emit, setBkt]
+              by_cases hbb : b' = b
+              · subst hbb
+                simp only [if_true]
+                have hd : ((openBkt s b').bkt b').isDrained = true := by simpa using h4
+                simp only [openBkt, emit, setBkt, if_true, Bucket.isDrained] at hd
+                simp only [Bucket.runnable]
+                cases he : (s.bkt b').enabled <;> simp [he] at hd ⊢
+                exact hd
+              · simp only [hbb, if_false]; exact h b' hb'
+        · rename_i h3; rw [if_neg h3] at hr; exact ih _ _ h hr
+
+theorem updateLoop_newp (c : Cfg) (bs : List Nat) : ∀ (s : State) (u : Bool),
+    (updateLoop c s bs u).2.2 = true → (updateLoop c s bs u).2.1 = true := by
+  induction bs with
+  | nil => intro s u h; simp [updateLoop] at h
+  | cons b bs ih =>
+    intro s u hr
+    unfold updateLoop at hr ⊢
+    split
+    · rename_i h1; rw [if_pos h1] at hr; exact ih _ _ hr
+    · rename_i h1; rw [if_neg h1] at hr
+      split
+      · rename_i h2; rw [if_pos h2] at hr; exact ih _ _ hr
+      · rename_i h2; rw [if_neg h2] at hr
+        split
+        · rename_i h3; rw [if_pos h3] at hr
+          split
+          · rfl
+          · rename_i h4; rw [if_neg h4] at hr
+            split
+            · rfl
+            · rename_i h5; rw [if_neg h5] at hr; exact ih _ _ hr
+        · rename_i h3; rw [if_neg h3] at hr; exact ih _ _ hr
+
+theorem updateBuckets_false (c : Cfg) (s : State) (hn : NoRun c s) (h : (updateBuckets c s).2 = false) :
+    NoRun c (updateBuckets c s).1 := by
+  unfold updateBuckets at h ⊢
+  simp only at h ⊢
+  have hnp : (updateLoop c s (List.range c.L) false).2.2 = false := by
+    cases hh : (updateLoop c s (List.range c.L) false).2.2 with
+    | false => rfl
+    | true => rw [updateLoop_newp c _ s false hh, hh] at h; cases h
+  exact noRun_of_bkt (updateLoop_noRun c _ s false hn hnp) rfl
+
+theorem closeLoop_noRun (c : Cfg) (bs : List Nat) : ∀ (s s' : State), NoRun c s → closeStwLoop c s bs = some s' → NoRun c s' := by
+  induction bs with
+  | nil => intro s s' h e; simp [closeStwLoop] at e; subst e; exact h
+  | cons b bs ih =>
+    intro s s' h e
+    unfold closeStwLoop at e
+    split at e
+    · split at e
+      · refine ih _ _ ?_ e
+        intro b' hb'
+        simp only [closeBkt, emit, setBkt]
+        by_cases hbb : b' = b
+        · simp [hbb, Bucket.runnable]
+        · simp only [hbb, if_false]; exact h b' hb'
+      · cases e
+    · exact ih _ _ h e
+
+theorem onGcFinished_noRun (c : Cfg) (s s' : State) (hn : NoRun c s) (h : onGcFinished c s = some s')
+    (hclosed : (s'.bkt c.concIdx).isOpen = false) : NoRun c s' := by
+  unfold onGcFinished at h
+  split at h
+  · cases h
+  · split at h
+    · cases h
+    · split at h
+      · cases h
+      · rename_i s1 hc
+        injection h with h; subst h
+        have h1 : NoRun c s1 := closeLoop_noRun c _ (emit s SubEv.gcFinishedBegin) _ (noRun_of_bkt hn rfl) hc
+        intro b hb
+        simp only [resume, emit]
+        unfold schedConcurrent
+        unfold schedConcurrent resume emit at hclosed
+        split
+        · rename_i hcs
+          rw [if_pos hcs] at hclosed
+          simp [setBkt] at hclosed
+        · simp only [emit, setBkt]
+          by_cases hbb : b = c.concIdx
+          · simp [hbb, Bucket.runnable]
+          · simp only [hbb, if_false]; exact h1 b hb
+
+theorem respond_noRun (c : Cfg) (s s' : State) (tag : Nat) (r : LPR) (hn : NoRun c s)
+    (h : respond c s tag = some (s', r)) (hr : r ≠ .wakeSelf) : NoRun c s' ∧ (r = .wakeAll → ∃ g, s'.current = some g ∧ g.isExit = true) := by
+  unfold respond at h
+  split at h
+  · cases h
+  · split at h
+    · injection h with h; injection h with _ h2; exact absurd h2.symm hr
+    · split at h
+      · injection h with h; injection h with h1 h2; subst h1
+        exact ⟨noRun_of_bkt hn rfl, fun _ => ⟨.shutdown, rfl, rfl⟩⟩
+      · split at h
+        · injection h with h; injection h with h1 h2; subst h1
+          exact ⟨noRun_of_bkt hn rfl, fun _ => ⟨.stopForFork, rfl, rfl⟩⟩
+        · injection h with h; injection h with h1 h2; subst h1; subst h2
+          exact ⟨hn, fun e => by cases e⟩
+
+
+/-- when the last parked worker decides to wait, or starts an exit goal, no bucket is runnable -/
+theorem onLastParked_noRun (c : Cfg) (s s' : State) (tag : Nat) (r : LPR) (hn : NoRun c s)
+    (h : onLastParked c s tag = some (s', r)) :
+    (r = .parkSelf → NoRun c s') ∧
+    (r = .wakeAll → (∃ g, s'.current = some g ∧ g.isExit = true) → NoRun c s') := by
+  unfold onLastParked at h
+  split at h
+  · by_cases hr : r = .wakeSelf
+    · subst hr; exact ⟨fun e => (nomatch e), fun e => nomatch e⟩
+    · have := respond_noRun c s s' tag r hn h hr
+      exact ⟨fun _ => this.1, fun _ _ => this.1⟩
+  · rename_i hcur
+    split at h
+    · cases h
+    · split at h
+      · cases h
+      · split at h
+        · injection h with h; injection h with h1 h2; subst h1; subst h2
+          refine ⟨fun e => (nomatch e), fun _ ⟨g, hg, hx⟩ => ?_⟩
+          rw [hcur] at hg; cases hg; exact absurd hx (by decide)
+        · split at h
+          · injection h with h; injection h with h1 h2; subst h1; subst h2
+            refine ⟨fun e => (nomatch e), fun _ ⟨g, hg, hx⟩ => ?_⟩
+            rw [(sbb_schedSentinels c s).current, hcur] at hg; cases hg; exact absurd hx (by decide)
+          · rename_i hss
+            have hss' : (schedSentinels c s).2 = false := by simpa using hss
+            have n1 : NoRun c (schedSentinels c s).1 := noRun_of_bkt hn (schedSentinels_false c s hss')
+            split at h
+            · injection h with h; injection h with h1 h2; subst h1; subst h2
+              refine ⟨fun e => (nomatch e), fun _ ⟨g, hg, hx⟩ => ?_⟩
+              rw [(sbb_updateBuckets c _).current, (sbb_schedSentinels c s).current, hcur] at hg
+              cases hg; exact absurd hx (by decide)
+            · rename_i hub
+              have hub' : (updateBuckets c (schedSentinels c s).1).2 = false := by simpa using hub
+              have n2 := updateBuckets_false c _ n1 hub'
+              split at h
+              · cases h
+              · rename_i s3 hg3
+                split at h
+                · injection h with h; injection h with h1 h2; subst h1; subst h2
+                  exact ⟨fun e => (nomatch e), fun _ ⟨g, hg, _⟩ => by simp [completeGc, emit] at hg⟩
+                · rename_i hopen
+                  have n3 : NoRun c s3 := onGcFinished_noRun c _ _ n2 hg3 (by simpa using hopen)
+                  have n4 : NoRun c (completeGc s3) := noRun_of_bkt n3 rfl
+                  by_cases hr : r = .wakeSelf
+                  · subst hr; exact ⟨fun e => (nomatch e), fun e => nomatch e⟩
+                  · have := respond_noRun c _ s' tag r n4 h hr
+                    exact ⟨fun _ => this.1, fun _ _ => this.1⟩
+  · cases h
+
+
+/-- worker `x` will still look into container `k` before it can park: it runs a packet (and polls
+afterwards), or it polls and has not yet seen `k` empty -/
+def covers (s : State) (x : Nat) (k : Cont) : Prop :=
+  match s.pc x with
+  | .exec _ => True
+  | .polling seen => k ∉ seen
+  | _ => False
+
+/-- container `k` holds a packet a poll would return -/
+def NonEmpty (c : Cfg) (s : State) : Cont → Prop
+  | .bucket b => b < c.L ∧ (s.bkt b).runnable = true
+  | .buf v => v < c.n ∧ s.buf v ≠ []
+  | .desig => False
+
+/-- every runnable packet is covered by a worker that has not given up looking -/
+def InvC (c : Cfg) (s : State) : Prop := ∀ k, NonEmpty c s k → ∃ x, x < c.n ∧ covers s x k
+
+theorem covers_of_exec {s : State} {x : Nat} (k : Cont) (h : (s.pc x).isExec = true) : covers s x k := by
+  unfold covers
+  cases hp : s.pc x <;> simp_all [PC.isExec]
+
+theorem covers_polling_nil {s : State} {x : Nat} (k : Cont) (h : s.pc x = .polling []) : covers s x k := by
+  unfold covers; rw [h]; simp
+
+theorem invC_cover_all {c : Cfg} {s' : State} {w : Nat} (hw : w < c.n) (h : ∀ k, covers s' w k) : InvC c s' :=
+  fun k _ => ⟨w, hw, h k⟩
+
+theorem invC_mono {c : Cfg} {s s' : State} (h : InvC c s) (hne : ∀ k, NonEmpty c s' k → NonEmpty c s k)
+    (hcov : ∀ x k, x < c.n → NonEmpty c s' k → covers s x k → covers s' x k) : InvC c s' := by
+  intro k hk
+  obtain ⟨x, hx, hc⟩ := h k (hne k hk)
+  exact ⟨x, hx, hcov x k hx hk hc⟩
+
+theorem covers_pc_eq {s s' : State} {x : Nat} {k : Cont} (h : s'.pc x = s.pc x) (hc : covers s x k) : covers s' x k := by
+  unfold covers at *; rw [h]; exact hc
+
+theorem nonEmpty_eq {c : Cfg} {s s' : State} (hb : s'.bkt = s.bkt) (hf : s'.buf = s.buf) (k : Cont)
+    (h : NonEmpty c s' k) : NonEmpty c s k := by
+  cases k <;> simp only [NonEmpty] at * <;> first | (rw [← hb]; exact h) | (rw [← hf]; exact h)
+
+/-- a worker that is not a cover changes its program counter; containers unchanged -/
+theorem invC_setPc_noncover {c : Cfg} {s s' : State} {w : Nat} {p : PC} (h : InvC c s)
+    (hnc : ∀ k, ¬ covers s w k) (hpc : s'.pc = (setPc s w p).pc) (hb : s'.bkt = s.bkt) (hf : s'.buf = s.buf) : InvC c s' := by
+  apply invC_mono h (nonEmpty_eq hb hf)
+  intro x k _ _ hc
+  have hxw : x ≠ w := fun e => hnc k (e ▸ hc)
+  apply covers_pc_eq _ hc
+  rw [hpc]; simp [setPc, hxw]
+
+theorem not_covers_of {s : State} {w : Nat} (h : ¬ (s.pc w).isExec = true) (h2 : ∀ seen, s.pc w ≠ .polling seen) :
+    ∀ k, ¬ covers s w k := by
+  intro k hc
+  unfold covers at hc
+  cases hp : s.pc w <;> rw [hp] at hc <;> simp_all [PC.isExec]
+
+theorem notifyAll_covers (s : State) (x : Nat) (k : Cont) (h : covers s x k) : covers (notifyAll s) x k := by
+  apply covers_pc_eq _ h
+  simp only [notifyAll]
+  split
+  · rename_i hw; unfold covers at h; rw [hw] at h; exact h.elim
+  · rfl
+
+theorem invC_notifyAll {c : Cfg} {s : State} (h : InvC c s) : InvC c (notifyAll s) :=
+  invC_mono h (nonEmpty_eq rfl rfl) (fun x k _ _ hc => notifyAll_covers s x k hc)
+
+theorem invC_notifyOne {c : Cfg} {s s' : State} {x : Option Nat} (h : InvC c s) (hs : notifyOne c s x = some s') : InvC c s' := by
+  rcases notifyOne_cases hs with ⟨x0, _, _, hw, rfl⟩ | ⟨_, _, rfl⟩
+  · exact invC_setPc_noncover h (not_covers_of (by rw [hw]; simp [PC.isExec]) (by rw [hw]; simp)) rfl rfl rfl
+  · exact h
+
+
+theorem mem_allConts_bucket {c : Cfg} {b : Nat} (h : b < c.L) : Cont.bucket b ∈ allConts c := by
+  simp [allConts, h]
+theorem mem_allConts_buf {c : Cfg} {v : Nat} (h : v < c.n) : Cont.buf v ∈ allConts c := by
+  simp [allConts, h]
+
+theorem nonEmpty_mem_allConts {c : Cfg} {s : State} {k : Cont} (h : NonEmpty c s k) : k ∈ allConts c := by
+  cases k with
+  | bucket b => exact mem_allConts_bucket h.1
+  | buf v => exact mem_allConts_buf h.1
+  | desig => exact h.elim
+
+theorem nonEmpty_not_looksEmpty {c : Cfg} {s : State} {w : Nat} {k : Cont} (h : NonEmpty c s k) : looksEmpty s w k = false := by
+  cases k with
+  | bucket b => simp [looksEmpty, h.2]
+  | buf v =>
+    simp only [looksEmpty]
+    have := h.2
+    cases hb : s.buf v <;> simp_all
+  | desig => exact h.elim
+
+/-- the last worker to park: everybody else is parked, so nobody covers anything -/
+theorem no_cover_when_last {c : Cfg} {s : State} {w : Nat} (hA : InvA c s) (hw : w < c.n) (hpc : s.pc w = .parking)
+    (hlast : s.parked + 1 = c.n) : ∀ x k, x < c.n → ¬ covers s x k := by
+  intro x k hx hc
+  by_cases hxw : x = w
+  · subst hxw; unfold covers at hc; rw [hpc] at hc; exact hc
+  · have := countW_all_but c.n (fun x => (s.pc x).isParked) w hw (by simp [hpc, PC.isParked])
+      (by have := hA.parked_eq; unfold parkedCount at this; omega) x hx hxw
+    unfold covers at hc
+    cases hp : s.pc x <;> rw [hp] at hc this <;> simp_all [PC.isParked]
+
+theorem noRun_of_invC {c : Cfg} {s : State} (h : InvC c s) (hno : ∀ x k, x < c.n → ¬ covers s x k) :
+    NoRun c s ∧ ∀ v, v < c.n → s.buf v = [] := by
+  constructor
+  · intro b hb
+    cases hr : (s.bkt b).runnable with
+    | false => rfl
+    | true => obtain ⟨x, hx, hc⟩ := h (.bucket b) ⟨hb, hr⟩; exact absurd hc (hno x _ hx)
+  · intro v hv
+    cases hbv : s.buf v with
+    | nil => rfl
+    | cons p l => obtain ⟨x, hx, hc⟩ := h (.buf v) ⟨hv, by rw [hbv]; simp⟩; exact absurd hc (hno x _ hx)
+
+theorem invC_of_empty {c : Cfg} {s : State} (h1 : NoRun c s) (h2 : ∀ v, v < c.n → s.buf v = []) : InvC c s := by
+  intro k hk
+  cases k with
+  | bucket b => have := h1 b hk.1; rw [hk.2] at this; cases this
+  | buf v => exact absurd (h2 v hk.1) hk.2
+  | desig => exact hk.elim
+
+theorem afterUnpark_covers (s : State) (w : Nat) (hcur : ∀ g, s.current = some g → g.isExit = false) (k : Cont) :
+    covers (afterUnpark s w) w k := by
+  unfold afterUnpark
+  split
+  · rename_i h; have := hcur _ h; cases this
+  · rename_i h; have := hcur _ h; cases this
+  · apply covers_polling_nil; simp [setPc]
+
+theorem respond_wakeSelf {c : Cfg} {s s' : State} {tag : Nat} (h : respond c s tag = some (s', .wakeSelf)) :
+    s'.current = some .gc := by
+  unfold respond at h
+  split at h
+  · cases h
+  · split at h
+    · injection h with h; injection h with h1 _; subst h1; rfl
+    · split at h
+      · injection h with h; injection h with _ h2; cases h2
+      · split at h
+        · injection h with h; injection h with _ h2; cases h2
+        · injection h with h; injection h with _ h2; cases h2
+
+theorem onLastParked_wakeSelf {c : Cfg} {s s' : State} {tag : Nat} (h : onLastParked c s tag = some (s', .wakeSelf)) :
+    s'.current = some .gc := by
+  unfold onLastParked at h
+  split at h
+  · exact respond_wakeSelf h
+  · split at h
+    · cases h
+    · split at h
+      · cases h
+      · split at h
+        · injection h with h; injection h with _ h2; cases h2
+        · split at h
+          · injection h with h; injection h with _ h2; cases h2
+          · split at h
+            · injection h with h; injection h with _ h2; cases h2
+            · split at h
+              · cases h
+              · split at h
+                · injection h with h; injection h with _ h2; cases h2
+                · exact respond_wakeSelf h
+  · cases h
+
+theorem afterUnpark_bkt (s : State) (w : Nat) : (afterUnpark s w).bkt = s.bkt := by
+  obtain ⟨p, _, he⟩ := afterUnpark_pc s w; rw [he]; rfl
+theorem afterUnpark_buf (s : State) (w : Nat) : (afterUnpark s w).buf = s.buf := by
+  obtain ⟨p, _, he⟩ := afterUnpark_pc s w; rw [he]; rfl
+
+theorem invC_same_pc {c : Cfg} {s s' : State} (h : InvC c s) (hpc : s'.pc = s.pc)
+    (hne : ∀ k, NonEmpty c s' k → NonEmpty c s k) : InvC c s' :=
+  invC_mono h hne (fun x k _ _ hc => covers_pc_eq (by rw [hpc]) hc)
+
+theorem invC_same {c : Cfg} {s s' : State} (h : InvC c s) (hpc : s'.pc = s.pc) (hb : s'.bkt = s.bkt)
+    (hf : s'.buf = s.buf) : InvC c s' :=
+  invC_same_pc h hpc (nonEmpty_eq hb hf)
+
+theorem step_invC (c : Cfg) (hmut : c.mutAddOpen = false) (s s' : State) (a : Act) (hA : InvA c s) (h : InvC c s)
+    (hs : step c s a = some s') : InvC c s' := by
+  cases a with
+  | observeEmpty w k0 =>
+    simp only [step] at hs
+    split at hs
+    · rename_i seen hpc
+      split at hs
+      · rename_i hg; injection hs with hs; subst hs
+        refine invC_mono h (fun k hk => nonEmpty_eq (c := c) (s := s) rfl rfl k hk) ?_
+        intro x k _ hk hc
+        by_cases hxw : x = w
+        · subst hxw
+          unfold covers at hc ⊢
+          rw [hpc] at hc
+          simp only [setPc, if_true]
+          intro hmem
+          rcases List.mem_cons.mp hmem with e | e
+          · subst e
+            have := nonEmpty_not_looksEmpty (w := x) hk
+            have h2 : looksEmpty s x k = true := hg.2
+            rw [show looksEmpty (setPc s x (PC.polling (k :: seen))) x k = looksEmpty s x k from by cases k <;> rfl] at this
+            rw [h2] at this; cases this
+          · exact hc e
+        · apply covers_pc_eq _ hc; simp [setPc, hxw]
+      · cases hs
+    · cases hs
+  | pollBucket w b p =>
+    simp only [step] at hs
+    split at hs
+    · split at hs
+      · rename_i hg; injection hs with hs; subst hs
+        exact invC_cover_all hg.1 (fun k => covers_of_exec k (by simp [setPc, PC.isExec]))
+      · cases hs
+    · cases hs
+  | batchMove w b p =>
+    simp only [step] at hs
+    split at hs
+    · rename_i p0 hpc
+      split at hs
+      · rename_i hg; injection hs with hs; subst hs
+        exact invC_cover_all hg.1 (fun k => covers_of_exec k (by show (s.pc w).isExec = true; rw [hpc]; rfl))
+      · cases hs
+    · cases hs
+  | popLocal w p =>
+    simp only [step] at hs
+    split at hs
+    · split at hs
+      · rename_i hg; injection hs with hs; subst hs
+        exact invC_cover_all hg.1 (fun k => covers_of_exec k (by simp [setPc, PC.isExec]))
+      · cases hs
+    · cases hs
+  | popDesig w p =>
+    simp only [step] at hs
+    split at hs
+    · split at hs
+      · rename_i hg; injection hs with hs; subst hs
+        exact invC_cover_all hg.1 (fun k => covers_of_exec k (by simp [setPc, PC.isExec]))
+      · cases hs
+    · cases hs
+  | steal w v p =>
+    simp only [step] at hs
+    split at hs
+    · split at hs
+      · rename_i hg; injection hs with hs; subst hs
+        exact invC_cover_all hg.1 (fun k => covers_of_exec k (by simp [setPc, PC.isExec]))
+      · cases hs
+    · cases hs
+  | pollMiss w =>
+    simp only [step] at hs
+    split at hs
+    · rename_i seen hpc
+      split at hs
+      · rename_i hg; injection hs with hs; subst hs
+        refine invC_mono h (fun k hk => nonEmpty_eq (c := c) (s := s) rfl rfl k hk) ?_
+        intro x k _ hk hc
+        have hxw : x ≠ w := by
+          intro e; subst e
+          unfold covers at hc; rw [hpc] at hc
+          have := (List.all_eq_true.mp hg.2) k (nonEmpty_mem_allConts hk)
+          exact hc (by simpa using this)
+        apply covers_pc_eq _ hc; simp [setPc, hxw]
+      · cases hs
+    · cases hs
+  | push w b tag =>
+    simp only [step] at hs
+    split at hs
+    · rename_i hg; injection hs with hs; subst hs
+      exact invC_cover_all hg.1 (fun k => covers_of_exec k hg.2.1)
+    · cases hs
+  | pushLocal w b tag =>
+    simp only [step] at hs
+    split at hs
+    · rename_i hg; injection hs with hs; subst hs
+      exact invC_cover_all hg.1 (fun k => covers_of_exec k hg.2.1)
+    · cases hs
+  | pushDesig w x tag =>
+    simp only [step] at hs
+    split at hs
+    · rename_i hg; injection hs with hs; subst hs
+      exact invC_cover_all hg.1 (fun k => covers_of_exec k hg.2.1)
+    · cases hs
+  | setSentinel w b tag =>
+    simp only [step] at hs
+    split at hs
+    · rename_i hg; injection hs with hs; subst hs
+      exact invC_cover_all hg.1 (fun k => covers_of_exec k hg.2.1)
+    · cases hs
+  | bucketNotifyOne w b x =>
+    simp only [step] at hs
+    split at hs
+    · exact invC_notifyOne h hs
+    · cases hs
+  | bucketNotifyAll w b =>
+    simp only [step] at hs
+    split at hs
+    · injection hs with hs; subst hs; exact invC_notifyAll h
+    · cases hs
+  | setEnabled w b v =>
+    simp only [step] at hs
+    split at hs
+    · rename_i hg; injection hs with hs; subst hs
+      exact invC_cover_all hg.1 (fun k => covers_of_exec k hg.2.1)
+    · cases hs
+  | stopAll w =>
+    simp only [step] at hs
+    split at hs
+    · rename_i hg; injection hs with hs; subst hs
+      exact invC_cover_all hg.1 (fun k => covers_of_exec k hg.2.1)
+    · cases hs
+  | clearRequest w =>
+    simp only [step] at hs
+    split at hs
+    · rename_i hg; injection hs with hs; subst hs
+      exact invC_cover_all hg.1 (fun k => covers_of_exec k hg.2)
+    · cases hs
+  | openFirst w b =>
+    simp only [step] at hs
+    split at hs
+    · rename_i hg; injection hs with hs; subst hs
+      exact invC_cover_all hg.1 (fun k => covers_of_exec k hg.2.1)
+    · cases hs
+  | wakeAll w =>
+    simp only [step] at hs
+    split at hs
+    · injection hs with hs; subst hs; exact invC_notifyAll h
+    · cases hs
+  | execEnd w =>
+    simp only [step] at hs
+    split at hs
+    · split at hs
+      · rename_i hg; injection hs with hs; subst hs
+        exact invC_cover_all hg (fun k => covers_polling_nil k (by simp [setPc]))
+      · cases hs
+    · cases hs
+  | park w tag =>
+    simp only [step] at hs
+    split at hs
+    · rename_i hg
+      obtain ⟨hw, hpc, hlt⟩ := hg
+      have hncw : ∀ k, ¬ covers s w k := not_covers_of (by rw [hpc]; simp [PC.isExec]) (by rw [hpc]; simp)
+      split at hs
+      · rename_i hlast
+        have hno := no_cover_when_last hA hw hpc hlast
+        obtain ⟨hnr, hbuf⟩ := noRun_of_invC h hno
+        have hnr0 : NoRun c { s with parked := s.parked + 1, trace := [] } := noRun_of_bkt hnr rfl
+        split at hs
+        · cases hs
+        · rename_i s1 hl
+          have f := frame_onLastParked c _ _ _ _ hl
+          have nr1 := (onLastParked_noRun c _ _ _ _ hnr0 hl).1 rfl
+          injection hs with hs; subst hs
+          exact invC_of_empty (noRun_of_bkt nr1 rfl) (fun v hv => by show s1.buf v = []; rw [f.buf]; exact hbuf v hv)
+        · rename_i s1 hl
+          have f := frame_onLastParked c _ _ _ _ hl
+          injection hs with hs; subst hs
+          -- wakeSelf: a Gc goal has just started, the worker polls again
+          have hcur : ∀ g, s1.current = some g → g.isExit = false := by
+            intro g hg
+            have := onLastParked_wakeSelf hl
+            rw [this] at hg; cases hg; rfl
+          exact invC_cover_all hw (afterUnpark_covers _ w hcur)
+        · rename_i s1 hl
+          have f := frame_onLastParked c _ _ _ _ hl
+          injection hs with hs; subst hs
+          by_cases hex : ∃ g, s1.current = some g ∧ g.isExit = true
+          · have nr1 := (onLastParked_noRun c _ _ _ _ hnr0 hl).2 rfl hex
+            exact invC_of_empty (by apply noRun_of_bkt nr1; rw [afterUnpark_bkt]; rfl)
+              (fun v hv => by rw [afterUnpark_buf]; show s1.buf v = []; rw [f.buf]; exact hbuf v hv)
+          · have hcur : ∀ g, (notifyAll s1).current = some g → g.isExit = false := by
+              intro g hg
+              cases hx : g.isExit with
+              | false => rfl
+              | true => exact absurd ⟨g, hg, hx⟩ hex
+            exact invC_cover_all hw (afterUnpark_covers { notifyAll s1 with parked := (notifyAll s1).parked - 1 } w hcur)
+      · injection hs with hs; subst hs
+        exact invC_setPc_noncover (s := s) h hncw rfl rfl rfl
+    · cases hs
+  | spurious w =>
+    simp only [step] at hs
+    split at hs
+    · rename_i hg; injection hs with hs; subst hs
+      exact invC_setPc_noncover h (not_covers_of (by rw [hg.2]; simp [PC.isExec]) (by rw [hg.2]; simp)) rfl rfl rfl
+    · cases hs
+  | wake w =>
+    simp only [step] at hs
+    split at hs
+    · rename_i hg; injection hs with hs; subst hs
+      obtain ⟨p, _, he⟩ := afterUnpark_pc { s with parked := s.parked - 1 } w
+      rw [he]
+      exact invC_setPc_noncover (s := s) h (not_covers_of (by rw [hg.2.1]; simp [PC.isExec]) (by rw [hg.2.1]; simp)) rfl rfl rfl
+    · cases hs
+  | surrender w =>
+    simp only [step] at hs
+    split at hs
+    · split at hs
+      · rename_i hg
+        have hnc := not_covers_of (s := s) (w := w) (by rw [hg.2]; simp [PC.isExec]) (by rw [hg.2]; simp)
+        split at hs
+        · injection hs with hs; subst hs; exact invC_setPc_noncover (s := s) h hnc rfl rfl rfl
+        · injection hs with hs; subst hs; exact invC_setPc_noncover (s := s) h hnc rfl rfl rfl
+      · cases hs
+    · cases hs
+  | requestFlag =>
+    simp only [step] at hs
+    split at hs <;> (injection hs with hs; subst hs)
+    · exact h
+    · exact invC_same h rfl rfl rfl
+  | makeRequest g x =>
+    simp only [step] at hs
+    have hc : InvC c (consumePending s g) := by
+      unfold consumePending; split
+      · exact invC_same h rfl rfl rfl
+      · exact h
+    split at hs
+    · cases hs
+    · split at hs
+      · split at hs
+        · injection hs with hs; subst hs; exact hc
+        · cases hs
+      · refine invC_notifyOne (s := setRequested (consumePending s g) g true) ?_ hs
+        cases g <;> exact invC_same hc rfl rfl rfl
+  | mutPush b tag =>
+    simp only [step] at hs
+    split at hs
+    · rename_i hg; injection hs with hs; subst hs
+      refine invC_same_pc h rfl ?_
+      intro k hk
+      cases k with
+      | bucket b' =>
+        refine ⟨hk.1, ?_⟩
+        have h2 := hk.2
+        simp only [pushBkt, setBkt, bump] at h2
+        by_cases hbb : b' = b
+        · subst hbb
+          simp only [if_true, Bucket.runnable] at h2
+          rcases hg.2 with hm | hno
+          · rw [hmut] at hm; cases hm
+          · exfalso; apply hno
+            simp only [Bool.and_eq_true] at h2
+            exact ⟨h2.1.1, h2.1.2⟩
+        · simpa [hbb] using h2
+      | buf v => exact hk
+      | desig => exact hk
+    · cases hs
+  | mutNotifyOne b x =>
+    simp only [step] at hs
+    split at hs
+    · exact invC_notifyOne h hs
+    · cases hs
+  | initSetEnabled b v =>
+    simp only [step] at hs
+    split at hs
+    · rename_i hg; injection hs with hs; subst hs
+      refine invC_same_pc h rfl ?_
+      intro k hk
+      cases k with
+      | bucket b' =>
+        refine ⟨hk.1, ?_⟩
+        have h2 := hk.2
+        simp only [setBkt] at h2
+        by_cases hbb : b' = b
+        · subst hbb
+          simp only [if_true, Bucket.runnable, Bool.and_eq_true] at h2
+          rcases hg.2.2 with hv | hno
+          · rw [hv] at h2; simp at h2
+          · exact absurd h2.1.2 hno
+        · simpa [hbb] using h2
+      | buf v => exact hk
+      | desig => exact hk
+    · cases hs
+  | prepareSurrender =>
+    simp only [step] at hs
+    split at hs
+    · injection hs with hs; subst hs
+      exact invC_same h rfl rfl rfl
+    · cases hs
+  | respawn =>
+    simp only [step] at hs
+    split at hs
+    · split at hs
+      · injection hs with hs; subst hs
+        intro k hk
+        have hkn : ∃ x, x < c.n := by
+          cases k with
+          | bucket b =>
+            -- a runnable bucket is covered in `s`, so some worker exists
+            obtain ⟨x, hx, _⟩ := h (.bucket b) hk; exact ⟨x, hx⟩
+          | buf v => exact ⟨v, hk.1⟩
+          | desig => exact hk.elim
+        obtain ⟨x, hx⟩ := hkn
+        exact ⟨x, hx, covers_polling_nil k (by simp [hx])⟩
+      · cases hs
+    · cases hs
+
+
+theorem init_invC (c : Cfg) : InvC c (init c) := by
+  intro k hk
+  cases k with
+  | bucket b => have := hk.2; simp [init, initBucket, Bucket.runnable, Bucket.isEmpty] at this
+  | buf v => exact absurd rfl hk.2
+  | desig => exact hk.elim
+
+/-- the three invariants together along every run -/
+structure Inv (c : Cfg) (s : State) : Prop where
+  a : InvA c s
+  b : InvB c s
+  c' : InvC c s
+
+theorem reachable_inv {c : Cfg} (hn : 0 < c.n) (hmut : c.mutAddOpen = false) {s : State} (h : Reachable c s) : Inv c s := by
+  obtain ⟨run, hr⟩ := h
+  exact exec_some_induct c (Inv c)
+    (fun s s' a hh hs => ⟨step_invA c s s' a hh.a hs, step_invB c hn s s' a hh.a hh.b hs,
+      step_invC c hmut s s' a hh.a hh.c' hs⟩)
+    run _ _ ⟨init_invA c, init_invB c hn, init_invC c⟩ hr
+
 end Mmtk.Sched
